@@ -558,7 +558,7 @@ func runWireCase(raw json.RawMessage, w *TraceWriter) {
 		o := decodeStream(c.Kind, in, br)
 		used := rd.ReadLen()
 		w.Ev("dec", "api", "stream", "kind", c.Kind, "frag", sh.name, "in", inJSON, "ok", o.ok, "n", o.n, "used", used, "val", Raw(o.val),
-			"tid", tidOf(o.err), "srcerr", errors.Is(o.err, src.endErr()), "panic", o.panicd)
+			"tid", tidOf(o.err), "srcerr", wrapsSource(o.err, src.endErr()), "panic", o.panicd)
 		br.Recycle()
 		rd.Release(nil)
 	}
